@@ -25,6 +25,17 @@ inductive SpecOut where
   | undefined           -- the specification does not say (invalid rule kept in the table, no decimal style)
   deriving DecidableEq, Repr
 
+/-- Known ways in which an implementation can deviate; the specification is `Dev.none`.  The
+    switches are only used to NAME a deviation observed on the implementation (harness side). -/
+structure Dev where
+  padBytes : Bool := false        -- pad length counted in UTF-8 bytes instead of characters
+  zeroEmpty : Bool := false       -- alphabetic / one-symbol symbolic render 0 as the empty string
+  absFallback : Bool := false     -- the fallback style receives |value| after the algorithm failed on a negative value
+  extUnknownPlain : Bool := false -- `extends <undefined style>`: rendered as plain decimal, own descriptors dropped
+  deriving Repr
+
+def Dev.none : Dev := {}
+
 /-- a counter style with `extends` resolved -/
 structure Style where
   system : String
@@ -88,7 +99,17 @@ def specStyle (c : Table) : Nat → String → Option Style
           let target := if inExtendsCycle c name (c.length + 1) name || (c.get? t).isNone then "decimal" else t
           if target = name then none else (specStyle c fuel target).map (overlay d)
 
-def cpLen (s : String) : Nat := s.length
+def cpLen (dev : Dev) (s : String) : Nat := if dev.padBytes then s.utf8ByteSize else s.length
+
+/-- does the `extends` chain of `name` reach an undefined style? -/
+def extendsUnknown (c : Table) : Nat → String → Bool
+  | 0, _ => false
+  | fuel + 1, name =>
+    match c.get? name with
+    | none => false
+    | some d => match d.extendsName with
+      | none => false
+      | some t => if (c.get? t).isNone then true else extendsUnknown c fuel t
 
 /-- §3.1.6: greedy, over non-negative values; a zero weight can only serve the value 0 -/
 def specAdditiveLoop : List (Int × String) → Nat → List String → Option String
@@ -98,14 +119,20 @@ def specAdditiveLoop : List (Int × String) → Nat → List String → Option S
     else if w ≤ 0 then specAdditiveLoop rest v acc
     else specAdditiveLoop rest (v % w.toNat) (repeatStr s (v / w.toNat) :: acc)
 
+/-- value 0 without a zero-weight tuple: the loop of step 3 "ends because value is 0" at once and the
+    (empty) S is returned — the literal reading of the standard, which is also what the code does -/
 def specAdditive (syms : List (Int × String)) (v : Nat) : Option String :=
-  if v = 0 then (syms.find? (fun p => p.1 = 0)).map (·.2)
+  if v = 0 then
+    match syms.find? (fun p => p.1 = 0) with
+    | some p => some p.2
+    | none => if syms.isEmpty then none else some ""
   else specAdditiveLoop syms v []
 
 /-- the counter algorithm of a (resolved) style on the value it is defined for; `none` = the value
     cannot be represented → fallback -/
-def specAlgorithm (st : Style) (v : Int) : Option String :=
+def specAlgorithm (dev : Dev) (st : Style) (v : Int) : Option String :=
   let L := st.symbols.length
+  if dev.zeroEmpty ∧ v = 0 ∧ ((st.system = "alphabetic" ∧ L ≥ 2) ∨ (st.system = "symbolic" ∧ L = 1)) then some "" else
   if st.system = "cyclic" then
     if L = 0 then none else st.symbols[((v - 1) % (L : Int)).toNat]?
   else if st.system = "fixed" then
@@ -136,38 +163,42 @@ def specInRange (st : Style) (v : Int) : Bool :=
     else if st.system = "additive" then v ≥ 0
     else true
 
-/-- steps 2-6 for one style; `none` = use the fallback style -/
-def specOne (st : Style) (v : Int) : Option String :=
-  if !specInRange st v then none
+/-- steps 2-6 for one style; `.inr v'` = use the fallback style with value `v'` (always the same value in
+    the specification) -/
+def specOne (dev : Dev) (st : Style) (v : Int) : String ⊕ Int :=
+  if !specInRange st v then .inr v
   else
     let neg := v < 0 ∧ specUsesNegative st
-    match specAlgorithm st (if neg then -v else v) with
-    | none => none
+    match specAlgorithm dev st (if neg then -v else v) with
+    | none => .inr (if dev.absFallback ∧ neg then -v else v)
     | some initial =>
-      let len : Int := cpLen initial + (if neg then cpLen st.negPre + cpLen st.negSuf else 0)
+      let len : Int := cpLen dev initial + (if neg then cpLen dev st.negPre + cpLen dev st.negSuf else 0)
       let padded := if st.padLen > len then repeatStr st.padSym (st.padLen - len).toNat ++ initial else initial
-      some (if neg then st.negPre ++ padded ++ st.negSuf else padded)
+      .inl (if neg then st.negPre ++ padded ++ st.negSuf else padded)
 
 /-- generate a counter representation, following fallbacks (a loop or an unknown name → decimal) -/
-def specRender (c : Table) : Nat → Int → String → List String → SpecOut
+def specRender (dev : Dev) (c : Table) : Nat → Int → String → List String → SpecOut
   | 0, _, _, _ => .undefined
   | fuel + 1, v, name, visited =>
     if (c.get? name).isNone then
-      if name = "decimal" then .undefined else specRender c fuel v "decimal" []
+      if name = "decimal" then .undefined else specRender dev c fuel v "decimal" []
+    else if dev.extUnknownPlain ∧ name ≠ "decimal" ∧ extendsUnknown c (c.length + 1) name then specRender dev c fuel v "decimal" []
     else
       match specStyle c (c.length + 2) name with
       | none => .undefined
       | some st =>
-        match specOne st v with
-        | some s => .text s
-        | none =>
+        match specOne dev st v with
+        | .inl s => .text s
+        | .inr v =>
           let fb := if (c.get? st.fallback).isNone || (name :: visited).contains st.fallback then "decimal" else st.fallback
           if name = "decimal" then .undefined   -- decimal represents every integer: never reached
-          else specRender c fuel v fb (if fb = "decimal" then [] else name :: visited)
+          else specRender dev c fuel v fb (if fb = "decimal" then [] else name :: visited)
 
 def specFuel (c : Table) : Nat := 2 * c.length + 4
 
-def specValue (c : Table) (v : Int) (name : String) : SpecOut := specRender c (specFuel c) v name []
+def specValueD (dev : Dev) (c : Table) (v : Int) (name : String) : SpecOut := specRender dev c (specFuel c) v name []
+
+def specValue (c : Table) (v : Int) (name : String) : SpecOut := specValueD .none c v name
 
 /-- anonymous styles: `symbols()` (§ 6) and a <string> list-style-type -/
 def anonStyle (id : CSID) : Style :=
@@ -178,22 +209,26 @@ def anonStyle (id : CSID) : Style :=
     { system := id.name, first := 1, symbols := id.symbols, additive := [], negPre := "-", negSuf := "", pre := "", suf := " ",
       ranges := none, padLen := 0, padSym := "", fallback := "decimal" }
 
-def specValueStyle (c : Table) (v : Int) (id : CSID) : SpecOut :=
+def specValueStyleD (dev : Dev) (c : Table) (v : Int) (id : CSID) : SpecOut :=
   if id.type = "string" ∨ id.type = "symbols()" then
-    match specOne (anonStyle id) v with
-    | some s => .text s
-    | none => specValue c v "decimal"
-  else specValue c v id.name
+    match specOne dev (anonStyle id) v with
+    | .inl s => .text s
+    | .inr v => specValueD dev c v "decimal"
+  else specValueD dev c v id.name
+
+def specValueStyle (c : Table) (v : Int) (id : CSID) : SpecOut := specValueStyleD .none c v id
 
 /-- marker text: prefix and suffix of the style named (not of the fallback that may render the value) -/
-def specMarker (c : Table) (id : CSID) (v : Int) : SpecOut :=
+def specMarkerD (dev : Dev) (c : Table) (id : CSID) (v : Int) : SpecOut :=
   let st : Option Style :=
     if id.type = "string" ∨ id.type = "symbols()" then some (anonStyle id)
     else if (c.get? id.name).isNone then specStyle c (c.length + 2) "decimal"
     else specStyle c (c.length + 2) id.name
-  match st, specValueStyle c v id with
+  match st, specValueStyleD dev c v id with
   | some st, .text s => .text (st.pre ++ s ++ st.suf)
   | _, _ => .undefined
+
+def specMarker (c : Table) (id : CSID) (v : Int) : SpecOut := specMarkerD .none c id v
 
 /-! ## Part 2 — counter scopes (CSS Lists 3 §4) -/
 
@@ -237,11 +272,16 @@ def touch (s : CSet) (self : Nat) (sibs : List Nat) (name : String) (f : Int →
   | some i => s.modify i (fun k => { k with value := f k.value })
   | none => s
 
-/-- the order of CSS Lists 3 §4: reset, increment, set -/
-def applyOps (s : CSet) (self : Nat) (sibs : List Nat) (o : Ops) : CSet :=
+/-- the order of CSS Lists 3 §4: reset, increment, set.  `setFirst = true` is the variant "reset, set,
+    increment" (what the code does); it is only used to name the deviation precisely. -/
+def applyOps (setFirst : Bool) (s : CSet) (self : Nat) (sibs : List Nat) (o : Ops) : CSet :=
   let s := o.reset.foldl (fun s p => instantiate s self sibs p.1 p.2) s
-  let s := o.increments.foldl (fun s p => touch s self sibs p.1 (· + p.2)) s
-  o.set.foldl (fun s p => touch s self sibs p.1 (fun _ => p.2)) s
+  if setFirst then
+    let s := o.set.foldl (fun s p => touch s self sibs p.1 (fun _ => p.2)) s
+    o.increments.foldl (fun s p => touch s self sibs p.1 (· + p.2)) s
+  else
+    let s := o.increments.foldl (fun s p => touch s self sibs p.1 (· + p.2)) s
+    o.set.foldl (fun s p => touch s self sibs p.1 (fun _ => p.2)) s
 
 /-- threaded through the children of one element -/
 structure Sib where
@@ -250,37 +290,39 @@ structure Sib where
   last : CSet           -- counters set of the element preceding in tree order
   next : Nat            -- next fresh id
 
-def specPseudo (k : ObsKind) (p : Option Ops) (parent : CSet) (sb : Sib) : Sib × List Obs :=
+def specPseudo (sf : Bool) (k : ObsKind) (p : Option Ops) (parent : CSet) (sb : Sib) : Sib × List Obs :=
   match p with
   | none => (sb, [])
   | some o =>
-    let s := applyOps (inheritCounters parent sb.set sb.last) sb.next sb.ids o
+    let s := applyOps sf (inheritCounters parent sb.set sb.last) sb.next sb.ids o
     ({ set := s, ids := sb.next :: sb.ids, last := s, next := sb.next + 1 }, [⟨k, s.values⟩])
 
 mutual
-  def specWalk : Elem → CSet → Sib → Sib × List Obs
+  def specWalk (sf : Bool) : Elem → CSet → Sib → Sib × List Obs
     | .node dn ops b a ch, parent, sb =>
       if dn then (sb, [])
       else
         let self := sb.next
-        let s := applyOps (inheritCounters parent sb.set sb.last) self sb.ids ops
+        let s := applyOps sf (inheritCounters parent sb.set sb.last) self sb.ids ops
         let mo : List Obs := if ops.listItem then [⟨.marker, s.values⟩] else []
         let inner : Sib := { set := [], ids := [], last := s, next := self + 1 }
-        let (inner, bo) := specPseudo .before b s inner
-        let (inner, co) := specWalkList ch s inner
-        let (inner, ao) := specPseudo .after a s inner
+        let (inner, bo) := specPseudo sf .before b s inner
+        let (inner, co) := specWalkList sf ch s inner
+        let (inner, ao) := specPseudo sf .after a s inner
         ({ set := s, ids := self :: sb.ids, last := inner.last, next := inner.next }, mo ++ bo ++ co ++ ao)
-  def specWalkList : List Elem → CSet → Sib → Sib × List Obs
+  def specWalkList (sf : Bool) : List Elem → CSet → Sib → Sib × List Obs
     | [], _, sb => (sb, [])
     | e :: es, parent, sb =>
-      let (sb, o1) := specWalk e parent sb
-      let (sb, o2) := specWalkList es parent sb
+      let (sb, o1) := specWalk sf e parent sb
+      let (sb, o2) := specWalkList sf es parent sb
       (sb, o1 ++ o2)
 end
 
 /-- the root starts with the `footnote` counter the renderer defines for the document -/
-def specObserve (root : Elem) : Option (List Obs) :=
+def specObserveOrd (setFirst : Bool) (root : Elem) : List Obs :=
   let doc : CSet := [⟨"footnote", 0, 0⟩]
-  some (specWalk root [] { set := doc, ids := [0], last := doc, next := 1 }).2
+  (specWalk setFirst root [] { set := doc, ids := [0], last := doc, next := 1 }).2
+
+def specObserve (root : Elem) : Option (List Obs) := some (specObserveOrd false root)
 
 end WR.C19
